@@ -189,6 +189,22 @@ def run_c01(report):
             k = next((i for i in range(min(len(exp), len(got))) if exp[i] != got[i]), min(len(exp), len(got)))
             fidelity_bad.append((hi, k, exp[k] if k < len(exp) else None, got[k] if k < len(got) else None))
     n_vm, vm_mism = common.vm_crosscheck(lines[:400], model[:400], "C01", limit=60)
+    # 1b. the SubFS model (FS/Wrap.v subfs_run over the MemoryFS model) must match a real SubFS of a real
+    #     MemoryFS exactly, including the part of the parent outside the sub-directory
+    sub_hs = (regress + hs)[: (len(hs) if thorough else 250)]
+    sub_model = common.run_model_parallel([hist_line("sub", h) for h in sub_hs], chunk=500)
+    for hi, h in enumerate(sub_hs):
+        b = B.SubMem()
+        fsx = b.make()
+        got = []
+        for o in h:
+            out = fsops.execute(fsx, o)
+            got.append(out + "#" + fsops.snap_memoryfs(b.parent))
+        b.close()
+        exp = sub_model[hi].split(" ") if sub_model[hi] else []
+        if exp != got:
+            k = next((i for i in range(min(len(exp), len(got))) if exp[i] != got[i]), min(len(exp), len(got)))
+            fidelity_bad.append((hi, k, exp[k] if k < len(exp) else None, got[k] if k < len(got) else None))
     # 2. every backend against the reference, stepping the reference from the backend's pre-state
     per_backend = {}
     for bc in backs:
@@ -1039,6 +1055,42 @@ def run_c11(report):
                         if r[1:] != base[1:]:
                             bad.append((bc.name, h, o, pos, base, r))
                             break
+    # systematic block: every call kind x key paths (root, directory, file, new) x every spelling, on a fixed tree
+    setup = [("makedirs", "d/e", True), ("writebytes", "f", b"F"), ("writebytes", "d/g", b"G")]
+    singles = [("getinfo",), ("listdir",), ("scandir",), ("makedir", False), ("makedir", True), ("makedirs", True),
+               ("writebytes", b"W"), ("appendbytes", b"A"), ("readbytes",), ("create", True), ("touch",),
+               ("openwrite", "r+b", b"Z"), ("openread", "rb"), ("remove",), ("removedir",), ("removetree",),
+               ("setinfo", 3), ("exists",), ("isdir",), ("isfile",), ("isempty",), ("getsize",), ("gettype",)]
+    pairs = [("move", True, False), ("copy", True, False), ("movedir", True, False), ("copydir", True, False)]
+    sys_backs = backs if thorough else [B.Mem, B.OS, B.SubMem, B.SubOS, B.Wrap, B.MountSub]
+    for bc in sys_backs:
+        calls = []
+        for k in singles:
+            for p0 in ("/", "d", "d/e", "f", "d/g", "new"):
+                calls.append(((k[0], p0) + tuple(k[1:]), 1))
+        for k in pairs:
+            for (a0, b0) in (("f", "new"), ("d/g", "f"), ("d", "new"), ("d/e", "/"), ("d", "d/e"), ("f", "/"), ("/", "new")):
+                calls.append(((k[0], a0, b0) + tuple(k[1:]), 1))
+                calls.append(((k[0], a0, b0) + tuple(k[1:]), 2))
+        for o, pos in calls:
+            sp = spellings(o[pos], rnd, ["zz", "d", "f"])
+            if not thorough:
+                sp = sp[:5] + rnd.sample(sp[5:], min(3, len(sp[5:])))
+            results = []
+            for sx in sp:
+                o2 = list(o)
+                o2[pos] = sx
+                steps = run_histories(bc, [setup + [tuple(o2)]])
+                last = steps[-1]
+                results.append((sx, strip_times(sort_listing(last.outcome)), fsops.canon_tree(last.post)))
+                total += 1
+            groups += 1
+            base = results[0]
+            nontrivial.add((bc.name, o[0], pos, base[1][:30]))
+            for r in results[1:]:
+                if r[1:] != base[1:]:
+                    bad.append((bc.name, setup, o, pos, base, r))
+                    break
     seen = set()
     for name, h, o, pos, base, r in bad:
         sig = "%s.%s arg%d" % (name, o[0], pos)
